@@ -129,6 +129,13 @@ Fixpoint after_dot (s : string) : string :=
   | String c r => if Ascii.eqb c dot then r else after_dot r
   end.
 
+(* the text before the first '.', i.e. parts[0] of key.split('.') *)
+Fixpoint before_dot (s : string) : string :=
+  match s with
+  | EmptyString => EmptyString
+  | String c r => if Ascii.eqb c dot then EmptyString else String c (before_dot r)
+  end.
+
 (* ------------------------------------------------------------------ parameters *)
 (* what a leaf parameter checks in set_value *)
 Inductive constr :=
@@ -259,6 +266,94 @@ Fixpoint remove_at (segs : list string) (p : param) : res (param * param) :=
       end
   end.
 
+(* ------------------------------------------------------------------ get / remove as written in parameters.py
+   A line-by-line transcription of the recursion in InputParameterMap.get and
+   .remove: test for a '.', look up parts[0], insist on a sub-map, recurse on
+   the text after the first '.'.  [fuel] bounds the recursion depth (the key
+   gets shorter at every call; running out is reported as OtherError and is
+   excluded by the equivalence lemmas in Proofs.v, which show that these
+   functions agree with [get], [remove_at], [modify] over [segments]).
+   The Leaf case is not reachable (get / remove are methods of maps). *)
+Fixpoint get_lit (fuel : nat) (m : param) (key : string) : res param :=
+  match fuel with
+  | O => Raise OtherError
+  | S f =>
+      match m with
+      | Leaf _ _ _ _ _ => Raise KeyError
+      | Map _ ch =>
+          if has_dot key then
+            match find_child (before_dot key) ch with
+            | None => Raise KeyError                          (* parts[0] not in self._value *)
+            | Some (Leaf _ _ _ _ _) => Raise KeyError         (* not a sub-map *)
+            | Some c => get_lit f c (after_dot key)           (* .get(key[key.find('.') + 1:]) *)
+            end
+          else
+            match find_child key ch with
+            | None => Raise KeyError
+            | Some c => Val c
+            end
+      end
+  end.
+
+Fixpoint remove_lit (fuel : nat) (m : param) (key : string) : res (param * param) :=
+  match fuel with
+  | O => Raise OtherError
+  | S f =>
+      match m with
+      | Leaf _ _ _ _ _ => Raise KeyError
+      | Map h ch =>
+          if has_dot key then
+            match find_child (before_dot key) ch with
+            | None => Raise KeyError
+            | Some (Leaf _ _ _ _ _) => Raise KeyError
+            | Some c =>
+                match remove_lit f c (after_dot key) with
+                | Val (c', x) => Val (Map h (replace_child (before_dot key) c' ch), x)
+                | Raise e => Raise e
+                end
+            end
+          else
+            match find_child key ch with
+            | None => Raise KeyError                          (* self._value.pop(key) *)
+            | Some c => Val (Map h (remove_child key ch), c)
+            end
+      end
+  end.
+
+(* p = m.get(key); f(p) changes p in place *)
+Fixpoint modify_lit (fuel : nat) (f : param -> res param) (m : param) (key : string) : res param :=
+  match fuel with
+  | O => Raise OtherError
+  | S fu =>
+      match m with
+      | Leaf _ _ _ _ _ => Raise KeyError
+      | Map h ch =>
+          if has_dot key then
+            match find_child (before_dot key) ch with
+            | None => Raise KeyError
+            | Some (Leaf _ _ _ _ _) => Raise KeyError
+            | Some c =>
+                match modify_lit fu f c (after_dot key) with
+                | Val c' => Val (Map h (replace_child (before_dot key) c' ch))
+                | Raise e => Raise e
+                end
+            end
+          else
+            match find_child key ch with
+            | None => Raise KeyError
+            | Some c => match f c with
+                        | Val c' => Val (Map h (replace_child key c' ch))
+                        | Raise e => Raise e
+                        end
+            end
+      end
+  end.
+
+Definition fuel_for (key : string) : nat := S (String.length key).
+Definition py_get (m : param) (key : string) : res param := get_lit (fuel_for key) m key.
+Definition py_remove (m : param) (key : string) : res (param * param) := remove_lit (fuel_for key) m key.
+Definition py_modify (f : param -> res param) (m : param) (key : string) : res param := modify_lit (fuel_for key) f m key.
+
 (* ------------------------------------------------------------------ what "a valid value" means *)
 (* The declared type / bounds / option list / quantity type of each class, as
    documented; written independently of set_value ([check_set] below), to which
@@ -353,12 +448,28 @@ Inductive kspec :=
 | SSel (opts : list string)
 | SUnit (cls : N) (units : list string).   (* units = list(quantity._units.keys()), supplied by the harness *)
 
+(* constructor arguments of the wrong Python type (the malformed stream);
+   none of them can be represented by the well-typed fields of [pspec], so
+   they are flags, and a flagged argument's field is ignored *)
+Record flaws := mkFlaws {
+  f_key : bool;      (* key is not a str *)
+  f_name : N;        (* 0 fine; 1 name is not a str; 2 name is the empty string *)
+  f_prio : bool;     (* display_priority is neither int nor float *)
+  f_ro : bool;       (* read_only is not a bool *)
+  f_min : bool;      (* min_value / min_si is neither int nor float *)
+  f_max : bool;
+  f_fmt : bool;      (* format_str is not a str *)
+  f_opts : N         (* 0 fine; 1 options is not a list; 2 options holds a non-str *)
+}.
+Definition no_flaws : flaws := mkFlaws false 0 false false false false false 0.
+
 Record pspec := mkSpec {
   s_key : string;
   s_prio : Q;
   s_ro : bool;
   s_kind : kspec;
-  s_default : pyval
+  s_default : pyval;
+  s_flaws : flaws
 }.
 
 Definition qty_class (d : pyval) : N := match d with VQty cls _ _ => cls | _ => 0%N end.
@@ -401,10 +512,12 @@ Definition unit_checks (s : pspec) : option exn :=
 (* the checks of the subclass constructors on default value and bounds *)
 Definition default_checks (s : pspec) : option exn :=
   let d := s_default s in
+  let fl := s_flaws s in
   match s_kind s with
   | SMap => None
   | SInt mn mx =>
       if negb (is_int d) then Some TypeError
+      else if f_min fl || f_max fl || f_fmt fl then Some TypeError
       else if x_leb (num_x mx) (num_x mn) then Some ValueError          (* min >= max *)
       else match val_x d with
            | Some x => if between mn mx x then None else Some ValueError
@@ -412,6 +525,7 @@ Definition default_checks (s : pspec) : option exn :=
            end
   | SFloat mn mx =>
       if negb (is_int d || is_float d) then Some TypeError
+      else if f_min fl || f_max fl || f_fmt fl then Some TypeError
       else if x_leb (num_x mx) (num_x mn) then Some ValueError
       else match val_x d with
            | Some x => if between mn mx x then None else Some ValueError
@@ -422,24 +536,36 @@ Definition default_checks (s : pspec) : option exn :=
   | SQty mn mx =>
       match d with
       | VQty _ si _ =>
-          if x_leb (num_x mx) (num_x mn) then Some ValueError
+          if f_min fl || f_max fl || f_fmt fl then Some TypeError
+          else if x_leb (num_x mx) (num_x mn) then Some ValueError
           else if between mn mx (flt_x si) then None else Some ValueError
       | _ => Some TypeError
       end
-  | SSel opts | SUnit _ opts =>
+  | SSel opts =>
+      if negb (N.eqb (f_opts fl) 0) then Some TypeError          (* checked before the default *)
+      else match d with
+           | VStr x => if mem_str x opts then None else Some ValueError
+           | _ => Some TypeError
+           end
+  | SUnit _ opts =>
       match d with
       | VStr x => if mem_str x opts then None else Some ValueError
       | _ => Some TypeError
       end
   end.
 
-(* InputParameter.__init__ : the checks that can fail for a well-typed call *)
+(* InputParameter.__init__ : its checks, in the order they are made *)
 Definition base_checks (s : pspec) (parent : option param) : option exn :=
-  if String.eqb (s_key s) EmptyString then Some ValueError
+  let fl := s_flaws s in
+  if f_key fl then Some TypeError
+  else if String.eqb (s_key s) EmptyString then Some ValueError
   else if has_dot (s_key s) then Some ValueError
+  else if N.eqb (f_name fl) 1 then Some TypeError
+  else if N.eqb (f_name fl) 2 then Some ValueError
+  else if f_prio fl then Some TypeError
   else match parent with
        | Some (Leaf _ _ _ _ _) => Some TypeError        (* parent not an InputParameterMap *)
-       | _ => None
+       | _ => if f_ro fl then Some TypeError else None
        end.
 
 Definition first_exn (a b : option exn) : option exn :=
@@ -461,14 +587,18 @@ Inductive op :=
 | ORemove (path : string)                        (* root.remove(path) *)
 | OGet (path : string)                           (* root.get(path) *)
 | OModelSet (path : string) (v : pyval)          (* model.set_parameter(path, v) *)
-| OModelGet (path : string).                     (* model.get_parameter(path) *)
+| OModelGet (path : string)                      (* model.get_parameter(path) *)
+| OInspect (path : string).                      (* p = root.get(path); what p reports through its public
+                                                    properties: read_only, display_priority, and
+                                                    min_value / max_value | min_si / max_si / type | options | unittype *)
 
 Inductive out :=
 | ORaise (e : exn)
 | ONone
 | OParam (id : nat)                (* a parameter object, named by its identity *)
 | OValue (v : pyval)
-| OMapKeys (ks : list string).     (* the dict of a map, as its keys in iteration order *)
+| OMapKeys (ks : list string)      (* the dict of a map, as its keys in iteration order *)
+| ODecl (ro : bool) (prio : Q) (c : option constr).   (* a parameter's declaration (None: a map) *)
 
 Definition psegs (pp : option string) : list string :=
   match pp with None => [] | Some s => segments s end.
@@ -502,6 +632,12 @@ Definition step_root (q : quirks) (id : nat) (root : param) (o : op) : param * o
       match get root path with
       | Val (Leaf _ _ _ _ v) => (root, OValue v)
       | Val (Map _ ch) => (root, OMapKeys (map pkey ch))
+      | Raise e => (root, ORaise e)
+      end
+  | OInspect path =>
+      match get root path with
+      | Val (Leaf h ro c _ _) => (root, ODecl ro (h_prio h) (Some c))
+      | Val (Map h _) => (root, ODecl true (h_prio h) None)       (* a map is read-only by definition *)
       | Raise e => (root, ORaise e)
       end
   | ORemove path =>
@@ -552,11 +688,101 @@ Definition step_root (q : quirks) (id : nat) (root : param) (o : op) : param * o
       end
   end.
 
+(* The same operations over the transcribed get / remove (this is what the
+   correspondence check executes); equal to [step_root] by [step_root_lit_eq]. *)
+Definition py_parent (root : param) (pp : option string) : res param :=
+  match pp with None => Val root | Some k => py_get root k end.
+
+Definition py_modify_at (pp : option string) (f : param -> res param) (root : param) : res param :=
+  match pp with None => f root | Some k => py_modify f root k end.
+
+Definition step_root_lit (q : quirks) (id : nat) (root : param) (o : op) : param * out :=
+  match o with
+  | OSet path v =>
+      match py_modify (set_value q v) root path with
+      | Val root' => (root', ONone)
+      | Raise e => (root, ORaise e)
+      end
+  | OModelSet path v =>
+      if q_model_set_attr q then
+        match py_get root path with
+        | Val _ => (root, ORaise AttributeError)
+        | Raise e => (root, ORaise e)
+        end
+      else
+        match py_modify (set_value q v) root path with
+        | Val root' => (root', ONone)
+        | Raise e => (root, ORaise e)
+        end
+  | OGet path =>
+      match py_get root path with
+      | Val p => (root, OParam (pid p))
+      | Raise e => (root, ORaise e)
+      end
+  | OModelGet path =>
+      match py_get root path with
+      | Val (Leaf _ _ _ _ v) => (root, OValue v)
+      | Val (Map _ ch) => (root, OMapKeys (map pkey ch))
+      | Raise e => (root, ORaise e)
+      end
+  | OInspect path =>
+      match py_get root path with
+      | Val (Leaf h ro c _ _) => (root, ODecl ro (h_prio h) (Some c))
+      | Val (Map h _) => (root, ODecl true (h_prio h) None)
+      | Raise e => (root, ORaise e)
+      end
+  | ORemove path =>
+      match py_remove root path with
+      | Val (root', x) => (root', OParam (pid x))
+      | Raise e => (root, ORaise e)
+      end
+  | OAddMeth pp s =>
+      match py_parent root pp with
+      | Raise e => (root, ORaise e)
+      | Val _ =>
+          match ctor_checks q s None with
+          | Some e => (root, ORaise e)
+          | None =>
+              match py_modify_at pp (map_add (node_of id s)) root with
+              | Val root' => (root', ONone)
+              | Raise e => (root, ORaise e)
+              end
+          end
+      end
+  | OAddCtor pp s =>
+      match py_parent root pp with
+      | Raise e => (root, ORaise e)
+      | Val par =>
+          if q_register_first q then
+            match first_exn (unit_checks s) (base_checks s (Some par)) with
+            | Some e => (root, ORaise e)
+            | None =>
+                match py_modify_at pp (map_add (node_of id s)) root with
+                | Raise e => (root, ORaise e)
+                | Val root' =>
+                    match default_checks s with
+                    | Some e => (root', ORaise e)
+                    | None => (root', ONone)
+                    end
+                end
+            end
+          else
+            match ctor_checks q s (Some par) with
+            | Some e => (root, ORaise e)
+            | None =>
+                match py_modify_at pp (map_add (node_of id s)) root with
+                | Val root' => (root', ONone)
+                | Raise e => (root, ORaise e)
+                end
+            end
+      end
+  end.
+
 (* the whole state: the tree of a DSOLModel and the number of the next operation *)
 Record state := mkState { st_root : param; st_next : nat }.
 
 Definition step (q : quirks) (st : state) (o : op) : state * out :=
-  let '(root', r) := step_root q (st_next st) (st_root st) o in
+  let '(root', r) := step_root_lit q (st_next st) (st_root st) o in
   (mkState root' (S (st_next st)), r).
 
 Fixpoint run (q : quirks) (st : state) (ops : list op) : state :=
@@ -634,6 +860,25 @@ Fixpoint strs_eqb (a b : list string) : bool :=
   | _, _ => false
   end.
 
+Definition num_eqb (a b : num) : bool :=
+  match a, b with
+  | NI x, NI y => Z.eqb x y
+  | NF x, NF y => flt_eqb x y
+  | _, _ => false
+  end.
+
+Definition constr_eqb (a b : constr) : bool :=
+  match a, b with
+  | CInt m x, CInt m' x' => num_eqb m m' && num_eqb x x'
+  | CFloat m x, CFloat m' x' => num_eqb m m' && num_eqb x x'
+  | CStr, CStr => true
+  | CBool, CBool => true
+  | CQty c m x, CQty c' m' x' => N.eqb c c' && num_eqb m m' && num_eqb x x'
+  | CSel o, CSel o' => strs_eqb o o'
+  | CUnit c o, CUnit c' o' => N.eqb c c' && strs_eqb o o'
+  | _, _ => false
+  end.
+
 Definition out_eqb (a b : out) : bool :=
   match a, b with
   | ORaise x, ORaise y => exn_eqb x y
@@ -641,6 +886,13 @@ Definition out_eqb (a b : out) : bool :=
   | OParam x, OParam y => Nat.eqb x y
   | OValue x, OValue y => pyval_eqb x y
   | OMapKeys x, OMapKeys y => strs_eqb x y
+  | ODecl r p c, ODecl r' p' c' =>
+      Bool.eqb r r' && Qeq_bool p p' &&
+      match c, c' with
+      | None, None => true
+      | Some x, Some y => constr_eqb x y
+      | _, _ => false
+      end
   | _, _ => false
   end.
 
